@@ -41,6 +41,20 @@ func oracleC07(x *Exec, so *StepObs) {
 			return
 		}
 	}
+	if op.Op == "rollback" && r.OK && !op.DryRun && !r.Crashed {
+		// a rollback re-applies a recorded manifest: its objects carry the ownership metadata too
+		if created := createdRev(so); created != 0 {
+			x.Res.Checks++
+			for _, id := range ManifestIDs(so.After.Rev(created).Manifest, ns) {
+				if o := so.After.Cluster[id.String()]; o != nil && !ownedBy(o, rel, ns) {
+					if res, found := resByKind(id.Kind); found && res.Typed {
+						fail("stamped", "typed-kind:after-rollback", fmt.Sprintf("%s was re-applied by the rollback but does not carry managed-by label and release annotations", id))
+						return
+					}
+				}
+			}
+		}
+	}
 	if op.Op != "install" && op.Op != "upgrade" {
 		return
 	}
